@@ -16,7 +16,7 @@ Inductive nkind := NJJ | NJT | NJR | NRJ | NMM | NCM | NZM | NGJ | NGM.
 (* join of joins | a.join(b) of joins | join of races | race of joins | merge of merges | chain of merges | zip of merges | FutureGroup of joins | StreamGroup of merges *)
 Definition nstreams (k: nkind) : bool := match k with NMM | NCM | NZM | NGM => true | _ => false end.
 
-Inductive act := ALeaf (e: ev) | AWake.        (* inside an inner poll: an event of a leaf | a wake-up of the waker the inner combinator holds *)
+Inductive nact := ALeaf (e: ev) | AWake.        (* inside an inner poll: an event of a leaf | a wake-up of the waker the inner combinator holds *)
 
 Record nst := {
   ihs : list (list op);          (* history of each inner combinator *)
@@ -91,13 +91,13 @@ Section Nest.
 
   (* ---- one poll of inner combinator c, inside a poll of the outer one that carries the caller's waker [opid] ---- *)
   (* a leaf wakes, from inside its poll, a leaf of the other inner combinator: that combinator reacts at once *)
-  Definition cross (s: nst) (acts: list act) (fs: list href) (l2 k2: nat) : nst * list act * list href :=
+  Definition cross (s: nst) (acts: list nact) (fs: list href) (l2 k2: nat) : nst * list nact * list href :=
     let b := inner_of l2 in
     let h := nth b (ihs s) [] ++ [OFire (l2 - base b) k2] in
     let t := run_level (leaves b) h in
     let d := skipn (nth b (its s) 0) t in
     let s' := set_inner s b h (length t) in
-    fold_left (fun (x: nst * list act * list href) e =>
+    fold_left (fun (x: nst * list nact * list href) e =>
       let '(s1, a1, f1) := x in
       match e with
       | EF j k => (s1, a1 ++ [ALeaf (EF (base b + j) k)], f1)
@@ -106,7 +106,7 @@ Section Nest.
       end) d (s', acts, fs).
   (* the wake-ups a leaf's step scripts before the one the inner model has just reported ([m]), or all that are left: those of leaves of the other
      inner combinator happen now; those the inner model did not report named a handle that does not exist *)
-  Fixpoint flush (c: nat) (m: href -> bool) (pending: list href) (s: nst) (acts: list act) (fs: list href) : list href * (nst * list act * list href) :=
+  Fixpoint flush (c: nat) (m: href -> bool) (pending: list href) (s: nst) (acts: list nact) (fs: list href) : list href * (nst * list nact * list href) :=
     match pending with
     | [] => ([], (s, acts, fs))
     | h :: r =>
@@ -116,8 +116,8 @@ Section Nest.
         | HSelf => flush c m r s acts fs
         end
     end.
-  Record ipoll := { p_s : nst; p_acts : list act; p_fs : list href; p_pending : list href; p_curj : nat }.
-  Definition inner_poll (s: nst) (c opid: nat) : nst * list act * step :=
+  Record ipoll := { p_s : nst; p_acts : list nact; p_fs : list href; p_pending : list href; p_curj : nat }.
+  Definition inner_poll (s: nst) (c opid: nat) : nst * list nact * step :=
     let pop := if outer_passes
                then (if nth c (ips s) false && (match nth c (los s) None with Some q => q =? opid | None => false end) then OPollSame else OPollFresh)
                else (if nth c (ips s) false then OPollSame else OPollFresh) in
@@ -191,7 +191,7 @@ Section Nest.
     | EF _ _ :: r => let '(g, r') := groups r in (None :: g, r')
     | _ => ([], d)
     end.
-  Fixpoint play (acts: list act) (gs: list (option nat)) : list ev :=
+  Fixpoint play (acts: list nact) (gs: list (option nat)) : list ev :=
     match acts with
     | [] => []
     | ALeaf e :: r => e :: play r gs
@@ -199,7 +199,7 @@ Section Nest.
     end.
   Definition vals_of (s: nst) (c: nat) : list nat := match nth c (ress s) None with Some (OVals vs) => vs | _ => [] end.
   (* print: a poll of child c is replaced by what happened inside the inner combinator *)
-  Fixpoint walk (fuel: nat) (actions: list (list act)) (d: list ev) (s: nst) : nst :=
+  Fixpoint walk (fuel: nat) (actions: list (list nact)) (d: list ev) (s: nst) : nst :=
     match fuel with
     | 0 => s
     | S f =>
@@ -227,7 +227,7 @@ Section Nest.
       end
     end.
   (* the children this poll polls are determined one after the other *)
-  Fixpoint settle (fuel: nat) (opid: nat) (known: list (nat * step)) (actions: list (list act)) (s: nst) : nst :=
+  Fixpoint settle (fuel: nat) (opid: nat) (known: list (nat * step)) (actions: list (list nact)) (s: nst) : nst :=
     let scs := map (fun c => nth c (oss s) [] ++ known_step known c) [0; 1] in
     let d := skipn (ot s) (run_outer scs (oh s)) in
     match fuel, first_unknown known d with
